@@ -15,6 +15,8 @@ from vlib.run import main
 RULE = ("case = one step of a disable/enable history (context layout, disabled hasher and marker, original hash kind) with all its "
         "observations, or one verify-against-None probe; distinct = distinct (disabled hasher, marker, position in the scheme list, "
         "original kind, operation sequence) tuples; sequences to depth 5 are enumerated completely")
+import os
+SIZE_LIMIT = int(os.environ.get("PASSLIB_MAX_PASSWORD_SIZE") or 4096)
 PW = "s3cret pw"
 MARKERS = "!*"
 
@@ -108,6 +110,7 @@ def cheap_kw(schemes):
 def observe(run, ctx, s, disabled_name, expect_disabled, w, originals_pw):
     """everything that must hold for the string s"""
     from passlib.exc import UnknownHashError
+    import passlib.exc as X
     try:
         en = ctx.is_enabled(s)
         ident = ctx.identify(s)
@@ -124,6 +127,12 @@ def observe(run, ctx, s, disabled_name, expect_disabled, w, originals_pw):
             try:
                 v = ctx.verify(pw, s)
                 vu = ctx.verify_and_update(pw, s)
+            except X.PasswordSizeError:
+                if len(pw) > SIZE_LIMIT:
+                    run.count("oversized_probe_refused")        # the library-wide size limit (lowered in some shards) refuses the probe: not accepted either
+                    continue
+                run.violation(f"C18|{disabled_name}|verify-raises|PasswordSizeError", f"verify of a {len(pw)}-character password raised PasswordSizeError below the limit {SIZE_LIMIT}", dict(w, string=s))
+                return False
             except Exception as e:
                 run.violation(f"C18|{disabled_name}|verify-raises|{type(e).__name__}", f"verify({pw!r}, {s!r}) raised {type(e).__name__}: {str(e)[:80]}", dict(w, string=s))
                 return False
@@ -327,6 +336,37 @@ def dummy(run):
                               f"after {how}(), {op}(pw, None) ran {calls1['verify'] - b1} verification(s) on the OLD default scheme and {calls2['verify'] - b2} on the new one", dict(w, how=how))
 
 
+def long_originals(run):
+    """an original hash longer than the library-wide password size limit is still just a hash: it can be disabled, stays
+    disabled, and (unix_disabled) comes back intact"""
+    import os
+    from passlib.context import CryptContext
+    import passlib.hash as PH
+    limit = int(os.environ.get("PASSLIB_MAX_PASSWORD_SIZE") or 4096)
+    big = PH.fshp.using(rounds=1, salt=b"s" * (limit + 100)).hash(PW)        # (fshp salts have no upper size limit)
+    normal = PH.fshp.using(rounds=1).hash(PW)
+    for disabled in ("unix_disabled", "django_disabled"):
+        ctx = CryptContext(schemes=["fshp", disabled], fshp__default_rounds=1)
+        for label, orig in (("longer-than-password-limit", big), ("ordinary", normal)):
+            if len(orig) <= limit and label != "ordinary":
+                continue
+            w = dict(disabled_hasher=disabled, original_kind=label, original_length=len(orig), password_size_limit=limit)
+            try:
+                dis = ctx.disable(orig)
+                again = ctx.disable(dis)
+                en = ctx.is_enabled(dis)
+                v = ctx.verify(PW, dis)
+            except Exception as e:
+                run.violation(f"C18|{disabled}|long-original|{type(e).__name__}", f"disabling a {len(orig)}-character hash (password size limit {limit}) raised {type(e).__name__}: {str(e)[:80]}", w)
+                continue
+            run.count("long_original_cases")
+            run.case(("long-original", disabled, label, limit), w)
+            if en is not False or v is not False or ctx.is_enabled(again) is not False:
+                run.violation(f"C18|{disabled}|long-original|not-disabled", f"disabled form of a {len(orig)}-character hash: is_enabled={en} verify={v}", w)
+            if disabled == "unix_disabled" and (ctx.enable(dis) != orig or ctx.enable(again) != orig):
+                run.violation(f"C18|{disabled}|long-original|not-restored", f"enable(disable(h)) != h for a {len(orig)}-character hash", w)
+
+
 def cross_marker(run):
     """strings carrying the other marker style than the configured one are still disabled and can be restored"""
     from passlib.context import CryptContext
@@ -359,6 +399,11 @@ def body(run):
     run.parallel("checks.c18", "histories", shards, timeout=900 if run.tier == "quick" else 3600)
     dummy(run)
     cross_marker(run)
+    long_originals(run)
+    # the same with a lowered library-wide size limit (environment switch read at import): ordinary hashes are then "long"
+    run.parallel("checks.c18", "long_originals", [dict()], timeout=600, env={"PASSLIB_MAX_PASSWORD_SIZE": "64"})
+    run.parallel("checks.c18", "histories", [dict(disabled=d, marker="!", part=0, parts=8) for d in ("unix_disabled", "django_disabled")], timeout=900, env={"PASSLIB_MAX_PASSWORD_SIZE": "64"})
+    run.require("long_original_cases", 6)
     run.exhaustive = True
     run.extra["exhaustive_scope"] = "all disable/enable sequences up to depth 4 (quick) / 5 (thorough) from every original kind, for every position of the disabled hasher in lists of 1-3 real schemes"
     run.require("history_steps", 5000)
